@@ -152,6 +152,7 @@ func generateCase(property string, tier string, run, seed uint64) (*RunCase, *ra
 		cfg := drawUCIGenCfg(rng, rc.Leg == "uci-stub")
 		if rc.Leg == "uci-twin" {
 			cfg.NoClock, cfg.Timed, cfg.PStall = true, false, 0
+			cfg.Spsa = false // tunables are process globals by design: two drivers in one process share them
 			cfg.PQuitMid, cfg.PEOFMid = 0, 0
 			cfg.Extremes = false
 			rc.UCITwins = 1 + rng.IntN(2)
